@@ -1,9 +1,13 @@
 (* Property C04: storage is transparent.  Pinned: the codec layer (packing of 2/4/9-state symbols,
    LEB128, meta-data word), the value stream (load_fixed_stream), the block layout (region_found,
    region_decodes), loading over any list of blocks (load_signal_blocks) and the rendering of every
-   stored entry (entry_render, observe_entries).  The encoder-side invariant that ties an operation
-   history to the block list is not closed yet - see MANIFEST level_claimed. *)
-From WV Require Import Model.Base Model.Bits Model.Leb128 Model.WaveMem Proofs.BitsProofs Proofs.LebProofs Proofs.WaveMemProofs Proofs.StoreProofs.
+   stored entry (entry_render, observe_entries), and the end-to-end theorem storage_transparent_partial with
+   its corollary storage_independent_of_segmentation.
+   What the end-to-end theorem does NOT cover (hence `_partial`): 1-bit signals, reals, strings, the GHW
+   raw-value path (add_n_bit_change) and Encoder::append (blocks produced by several parser threads); for
+   those the tie is the correspondence check (MANIFEST level_note). *)
+From WV Require Import Model.Base Model.Bits Model.Leb128 Model.WaveMem Proofs.BitsProofs Proofs.LebProofs Proofs.WaveMemProofs Proofs.StoreProofs Proofs.EncoderProofs.
+From WV Require Import Spec.TimeSpec Spec.StoreSpec.
 Open Scope N_scope.
 
 (* write_n_state followed by the symbol extraction of n_state_to_bit_string is the identity for
@@ -72,6 +76,46 @@ Check observe_entries :
                                      (concat (map snd (map (wide_of mx bits) abs)))))
   = outcome_map render_of abs.
 
+(* END-TO-END (vectors of width >= 2 written through the VCD value path): for every operation history over any
+   number of signals, every block capacity 1..65536 (every segmentation; the code's 65535 is one instance),
+   every compressor satisfying the round-trip law: the loaded signal reports exactly the recorded changes
+   (Spec/StoreSpec.v `recorded`): index into the accepted time table, least kind holding the value, its
+   characters; consecutive equal values once.  Size side conditions: fewer than 2^32 time table entries and
+   less than 4 GiB of data for the signal (beyond that the real code's u32 length fields wrap). *)
+Definition storage_transparent_partial := storage_transparent.
+Check storage_transparent_partial :
+  forall (parse_f64 : list byte -> option (list byte)) (lz_compress : list byte -> list byte)
+         (lz_decompress : list byte -> nat -> option (list byte)),
+  (forall d n, (length d <= n)%nat -> lz_decompress (lz_compress d) n = Some d) ->
+  forall cap, 1 <= cap -> cap <= 65536 -> forall id bits, (2 <= bits)%nat ->
+  forall tpes ops e blocks ttb,
+  nth_error tpes id = Some (EncBits bits) ->
+  Forall (op_ok id) ops ->
+  N.of_nat (count_vcd id ops) * (10 + N.of_nat bits) < 4294967264 ->
+  run_ops parse_f64 lz_compress cap (enc_new tpes) ops = Ok e ->
+  enc_finish lz_compress e = Ok (blocks, ttb) ->
+  N.of_nat (length ttb) < 4294967296 ->
+  exists R sig,
+    Forall2 (decodes bits) R (recorded id ops [] false) /\
+    load_signal lz_decompress blocks id (EncBits bits) = Ok sig /\
+    observe_signal sig = outcome_map render_of (dedup R).
+
+(* two stores with different block capacities / compressors fed the same history report the same changes *)
+Check storage_independent_of_segmentation :
+  forall parse1 parse2 lzc1 lzd1 lzc2 lzd2 cap1 cap2 id bits tpes ops e1 e2 b1 t1 b2 t2,
+  (forall d n, (length d <= n)%nat -> lzd1 (lzc1 d) n = Some d) ->
+  (forall d n, (length d <= n)%nat -> lzd2 (lzc2 d) n = Some d) ->
+  1 <= cap1 <= 65536 -> 1 <= cap2 <= 65536 -> (2 <= bits)%nat ->
+  nth_error tpes id = Some (EncBits bits) -> Forall (op_ok id) ops ->
+  N.of_nat (count_vcd id ops) * (10 + N.of_nat bits) < 4294967264 ->
+  run_ops parse1 lzc1 cap1 (enc_new tpes) ops = Ok e1 -> enc_finish lzc1 e1 = Ok (b1, t1) ->
+  run_ops parse2 lzc2 cap2 (enc_new tpes) ops = Ok e2 -> enc_finish lzc2 e2 = Ok (b2, t2) ->
+  N.of_nat (length t1) < 4294967296 -> N.of_nat (length t2) < 4294967296 ->
+  exists s1 s2, load_signal lzd1 b1 id (EncBits bits) = Ok s1 /\ load_signal lzd2 b2 id (EncBits bits) = Ok s2 /\
+                observe_signal s1 = observe_signal s2.
+
+Print Assumptions storage_transparent_partial.
+Print Assumptions storage_independent_of_segmentation.
 Print Assumptions load_fixed_stream.
 Print Assumptions entry_render.
 Print Assumptions load_signal_blocks.
